@@ -289,7 +289,7 @@ class Ridge2FoldCV(BaseEstimator, MultiOutputMixin, RegressorMixin):
         best_scaled_alpha = scaled_alphas[best_alpha_idx]
 
         U, s, Vt = np.linalg.svd(X, full_matrices=False)
-        n = len(s > rcond)
+        n = sum(s > rcond)
         if self.regularization_method == "tikhonov":
             return (
                 (Vt.T[:, :n] * s[:n] / (s[:n] ** 2 + best_scaled_alpha)) @ (U.T[:n] @ y)
